@@ -246,9 +246,9 @@ func c06BuildCanonical(d c06Desc) *c06Msg {
 		if v.address() == nil {
 			panic("unsigned vote")
 		}
-		if nid, e := v.NID(); e != nil || int(nid) != d.NID {
-			panic(fmt.Sprintf("harness: vote nid %d err %v for %v", nid, e, d))
-		}
+		// What the real NID() reads back is not asserted here: a vote whose network
+		// is misread is the code under test, and the pair oracle (descriptor
+		// networks vs what the four observation points accept) decides it.
 		m.dsd, err = newDoubleSignDataWithVoteMessage(v)
 	}
 	if err != nil {
